@@ -8,12 +8,18 @@ package main
 
 import (
 	"bytes"
+	"crypto/aes"
+	"crypto/cipher"
 	"crypto/ecdsa"
+	"crypto/hmac"
 	"crypto/rand"
 	"crypto/sha256"
+	"crypto/sha512"
 	"encoding/base64"
+	"encoding/binary"
 	"encoding/json"
 	"fmt"
+	"hash"
 	"math/big"
 	"os"
 	"path/filepath"
@@ -1566,7 +1572,93 @@ func (p *pool) coReencJWE(c Case, r1 *env.RawJWE) ([]byte, string, bool, error) 
 	out.Ciphertext = base64.RawURLEncoding.EncodeToString(ed.Ciphertext)
 	out.Tag = base64.RawURLEncoding.EncodeToString(ed.Tag)
 
-	return out.Bytes(), fmt.Sprintf("WJwe (reenc_jwe (cek_of (h_rnd %s)) %d (set_iv (Bytes 77) (J w1)))", p.coqHEnv(h, 100000), forged), false, nil
+	if c.Mut.Arg == "" {
+		return out.Bytes(), fmt.Sprintf("WJwe (reenc_jwe (cek_of (h_rnd %s)) %d (set_iv (Bytes 77) (J w1)))", p.coqHEnv(h, 100000), forged), false, nil
+	}
+
+	// malformed-length members: the co-recipient controls iv, ciphertext and tag completely.  For the CBC-HMAC encs
+	// the MAC is computed by hand over what the AEAD will take for the ciphertext once the composite primitive has
+	// re-assembled iv || ciphertext || tag and cut the last T bytes off as the tag.
+	honestTag := dec(r1.Tag)
+	iv, ct, tag := ed.IV, ed.Ciphertext, ed.Tag
+
+	var mac func(ivSent, ctSeen []byte) []byte
+
+	hashes := map[string]func() hash.Hash{"A128CBC": sha256.New, "A192CBC": sha512.New384, "A256CBC512": sha512.New}
+
+	if hf, isCBC := hashes[h.Enc]; isCBC {
+		half := len(cek) / 2
+		macKey, encKey := cek[:half], cek[half:]
+		pt := payloadBytes(forged)
+		padLen := aes.BlockSize - len(pt)%aes.BlockSize
+		padded := append(append([]byte{}, pt...), bytes.Repeat([]byte{byte(padLen)}, padLen)...)
+		iv = make([]byte, aes.BlockSize)
+		_, _ = rand.Read(iv)
+
+		block, e := aes.NewCipher(encKey)
+		if e != nil {
+			return nil, "", false, e
+		}
+
+		ct = make([]byte, len(padded))
+		cipher.NewCBCEncrypter(block, iv).CryptBlocks(ct, padded)
+
+		aad := []byte(r1.Protected)
+		mac = func(ivSent, ctSeen []byte) []byte {
+			al := make([]byte, 8)
+			binary.BigEndian.PutUint64(al, uint64(len(aad))*8)
+
+			m := hmac.New(hf, macKey)
+			m.Write(aad)
+			m.Write(ivSent)
+			m.Write(ctSeen)
+			m.Write(al)
+
+			return m.Sum(nil)[:half]
+		}
+
+		tag = mac(iv, ct)
+	} else {
+		mac = func(_, _ []byte) []byte { return tag } // AEAD encs: the forged tag as produced by the primitive
+	}
+
+	cat := func(a, b []byte) []byte { return append(append([]byte{}, a...), b...) }
+	tagCoq := "(Junk 73)"
+
+	switch c.Mut.Arg {
+	case "tag=h+f": // the KDF would see the honest tag first, the AEAD the forged one last
+		tag = cat(honestTag, mac(iv, cat(ct, honestTag)))
+		tagCoq = "(Tup [j_tag (J w1); Junk 73])"
+	case "tag=f+h":
+		tag = cat(mac(iv, ct), honestTag)
+		tagCoq = "(Tup [Junk 73; j_tag (J w1)])"
+	case "tag=trunc":
+		tag = tag[:len(tag)/2]
+	case "tag=ext":
+		tag = cat(tag, make([]byte, 8))
+	case "tag=h+zero":
+		tag = cat(honestTag, make([]byte, len(honestTag)))
+		tagCoq = "(Tup [j_tag (J w1); Junk 74])"
+	case "iv=short":
+		tag = mac(iv[:8], ct)
+		iv = iv[:8]
+	case "iv=long":
+		tag = mac(cat(iv, iv[:8]), ct)
+		iv = cat(iv, iv[:8])
+	case "ct=append":
+		extra := make([]byte, aes.BlockSize)
+		_, _ = rand.Read(extra)
+		ct = cat(ct, extra)
+		tag = mac(iv, ct)
+	default:
+		return nil, "", false, fmt.Errorf("unknown co-recipient forgery %q", c.Mut.Arg)
+	}
+
+	out.IV = base64.RawURLEncoding.EncodeToString(iv)
+	out.Ciphertext = base64.RawURLEncoding.EncodeToString(ct)
+	out.Tag = base64.RawURLEncoding.EncodeToString(tag)
+
+	return out.Bytes(), fmt.Sprintf("WJwe (set_tag %s (set_ct (Junk 72) (set_iv (Junk 71) (J w1))))", tagCoq), false, nil
 }
 
 func (p *pool) mutateLegacy(c Case, e1, e2 []byte) ([]byte, string, bool, error) {
@@ -2023,6 +2115,13 @@ func (p *pool) gen(tr *hx.Trace, rng *hx.Rng, thorough bool) {
 
 		if n > 1 && auth {
 			emit("attack", pr, Mut{Kind: "coreenc"}, victim, via)
+
+			if !legacy {
+				// the co-recipient's forgeries with members of other lengths
+				for _, a := range []string{"tag=h+f", "tag=f+h", "tag=h+zero", "tag=trunc", "tag=ext", "iv=short", "iv=long", "ct=append"} {
+					emit("attack", pr, Mut{Kind: "coreenc", Arg: a}, victim, via)
+				}
+			}
 		}
 	}
 }
